@@ -741,6 +741,7 @@ func TestCheck(t *testing.T) {
 			"each case is run through ToolsNode.Invoke/Stream directly and inside graphs/chains under gate-forced completion orders (all N! for N<=4), every non-empty subset of failing calls (N<=4), panics at call 0 and >=1, with/without unknown-tool handler; "+
 			"22% of these cases have tools whose total output is empty (invokable form returning \"\", streams of \"\" chunks, streams without any chunk, handler answering \"\"), alone and mixed with ordinary calls; "+
 			"14% of the cases are sequences of 2-6 messages to one tools node whose utils-built tools (struct / pointer / map argument types with optional fields, nested structs, maps, slices) are called repeatedly with different subsets of fields, every message in every mode, expected content from the arguments decoded into a fresh value; "+
+			"beside every 2nd case, from a copy of its generator (the draws of the other cases are unchanged): a case of context-aware tools (ctx_aware_tools_test.go: 1-7 calls to 1-4 tools that select on gate/ctx.Done, check ctx.Err() after their gate, or ignore the context; own sentinel error per failing call; caller never cancels), every failing subset (N<=3) in an invoke and a stream form, direct and in graph/chain, failing call returning first in half of the runs; "+
 			"non-trivial = N>=2 calls, at least one run completed in an order different from call order, and the answers of all five modes were compared with the reference (sequences: a call omits what an earlier call of the same tool set, all runs compared)",
 		[]string{
 			"tool bodies are pure functions of (tool, arguments, tool option); the reference maps them over the call list without eino",
@@ -766,11 +767,23 @@ func TestCheck(t *testing.T) {
 	rep.Require("typed_args_runs_matching_reference", 50)
 	rep.Require("typed_args_calls_omitting_what_an_earlier_call_of_the_tool_set", 50)
 	rep.Require("quiet_cases", 10)
+	rep.Require("ctx_runs_call_failed_with_a_failing_tools_own_error", 50)
+	rep.Require("ctx_runs_failing_call_returned_while_a_lower_call_was_still_gated", 20)
+	rep.Require("ctx_runs_all_tools_ok_answers_in_call_order", 20)
 	k := &checker{t: t, rep: rep}
 	n := int64(cfg.Pick(150, 2000))
 	rep.Cases(n, func(idx int64, rng *mon.Rand) {
 		if k.dead {
 			return
+		}
+		// context-aware tools (ctx_aware_tools_test.go) run beside every caEvery-th case, from a
+		// COPY of the case's generator: the draws of the sub-workloads below stay what they were
+		if idx%caEvery == 0 {
+			fork := *rng
+			k.runCtxAware(fork.Sub("ctx-aware-tools"), idx == 0)
+			if k.dead {
+				return
+			}
 		}
 		// shares: 14 % typed-arguments sequences (typedargs_test.go), 22 % cases with
 		// tools whose total output is empty (empty_output_test.go), the rest ordinary
